@@ -471,6 +471,7 @@ func TestVerifC16Tab(t *testing.T) {
 		}
 	}
 	caps := []int{-3, 0, 1, 8, 9, 12, 13, 24, 25, 48, 49, 96, 100, 192, 200, 384, 385, 768, 1000, 1536, 3000}
+	thorough := os.Getenv("VERIF_TIER") == "thorough"
 	for c := 0; c < n; c++ {
 		kind := vC16Kinds[c%len(vC16Kinds)]
 		capacity := caps[r.Intn(8)]
@@ -488,7 +489,19 @@ func TestVerifC16Tab(t *testing.T) {
 			nops = 120 + r.Intn(80)
 			churn = false
 		}
+		if thorough && c%25 == 7 && c%50 == 7 {
+			capacity = []int{6000, 6144, 6145, 12000}[r.Intn(4)] // 8192 / 16384 slots
+			poolN = 100 + r.Intn(200)
+			nops = 150 + r.Intn(100)
+		}
 		tr.emit(vC16TabHistory(r, capacity, kind, nops, poolN, churn))
+	}
+	// many short histories on the smallest tables (8 / 16 slots, few keys): every
+	// arrangement of a short cluster, its deletions and the wrap at the table end
+	// comes up often; cheap to evaluate, so they carry most of the case count
+	for c := 0; c < 2*n; c++ {
+		kind := vC16Kinds[(c+3)%len(vC16Kinds)]
+		tr.emit(vC16TabHistory(r, []int{0, 0, 0, 7, 9}[r.Intn(5)], kind, 8+r.Intn(14), 2+r.Intn(7), r.Intn(4) == 0))
 	}
 	// one marathon: 8 slots up to 1024 (quick) / 4096 (thorough)
 	big := 700
@@ -1530,6 +1543,277 @@ func vC16RaceClear() map[string]any {
 		"desc": map[string]any{"schedule": "Clear() clears segments 0..14, waits for 15; Set(k@0); release; Clear finishes", "len": m.Len(), "reachable": n}}
 }
 
+// ---------------------------------------------------------- linearizability
+// Recorded concurrent histories of Cache.Get / Add / Remove / CompareAndSwap /
+// CompareAndDelete, checked against the sequential specification of a map
+// (per key: a register that can be absent).  Every operation is stamped with a
+// logical clock before the call and after the return; the history of one key is
+// linearizable iff its operations can be put into one order that respects
+// "returned before the other was called" and in which every result is what the
+// sequential register gives.  A map is linearizable iff every key's history is
+// (locality), as long as nothing but the recorded operations touches a key: the
+// cache is kept far below its capacity, so no Add evicts.  The search is Wing &
+// Gong's with memoisation on (set of linearized operations, register state).
+
+type vC16LinOp struct {
+	kind     int    // 0 Get, 1 Add, 2 Remove, 3 CompareAndSwap, 4 CompareAndDelete
+	old, val uint64 // CAS/CAD expected value; Add/CAS new value (values are unique, never 0)
+	res      uint64 // Get: value returned (0 = miss)
+	ok       bool   // CAS / CAD result
+	call, ret int64
+}
+
+func (o vC16LinOp) String() string {
+	n := []string{"Get", "Add", "Remove", "CAS", "CAD"}[o.kind]
+	return fmt.Sprintf("%s(old=%d,new=%d)->(%d,%v)@[%d,%d]", n, o.old, o.val, o.res, o.ok, o.call, o.ret)
+}
+
+// sequential register: state 0 = absent; returns the new state and whether the
+// recorded result is the one the register gives
+func vC16LinApply(state uint64, o vC16LinOp) (uint64, bool) {
+	switch o.kind {
+	case 0:
+		return state, o.res == state
+	case 1:
+		return o.val, true
+	case 2:
+		return 0, true
+	case 3:
+		hit := state != 0 && state == o.old
+		if hit != o.ok {
+			return state, false
+		}
+		if hit {
+			return o.val, true
+		}
+		return state, true
+	default:
+		hit := state != 0 && state == o.old
+		if hit != o.ok {
+			return state, false
+		}
+		if hit {
+			return 0, true
+		}
+		return state, true
+	}
+}
+
+// at most 64 operations
+func vC16Linearizable(ops []vC16LinOp) bool {
+	n := len(ops)
+	if n > 64 {
+		return false
+	}
+	full := uint64(1)<<uint(n) - 1
+	if n == 64 {
+		full = ^uint64(0)
+	}
+	type memoKey struct{ done, state uint64 }
+	seen := map[memoKey]bool{}
+	var rec func(done, state uint64) bool
+	rec = func(done, state uint64) bool {
+		if done == full {
+			return true
+		}
+		mk := memoKey{done, state}
+		if seen[mk] {
+			return false
+		}
+		seen[mk] = true
+		// an operation may come next only if no pending operation returned before it was called
+		minRet := int64(1) << 62
+		for i := 0; i < n; i++ {
+			if done&(1<<uint(i)) == 0 && ops[i].ret < minRet {
+				minRet = ops[i].ret
+			}
+		}
+		for i := 0; i < n; i++ {
+			if done&(1<<uint(i)) != 0 || ops[i].call > minRet {
+				continue
+			}
+			if ns, ok := vC16LinApply(state, ops[i]); ok && rec(done|1<<uint(i), ns) {
+				return true
+			}
+		}
+		return false
+	}
+	return rec(0, 0)
+}
+
+// the checker itself: accepts a concurrent history that has a linearization and
+// rejects the three classical anomalies (stale read after a completed overwrite,
+// CAS success against a value that was never current at that time, lost delete)
+func vC16LinSelfTest() string {
+	good := []vC16LinOp{
+		{kind: 1, val: 7, call: 1, ret: 4}, {kind: 0, res: 0, call: 2, ret: 3}, {kind: 0, res: 7, call: 5, ret: 6},
+		{kind: 3, old: 7, val: 8, ok: true, call: 7, ret: 10}, {kind: 0, res: 8, call: 8, ret: 9}, {kind: 4, old: 7, ok: false, call: 11, ret: 12},
+	}
+	if !vC16Linearizable(good) {
+		return "checker rejects a linearizable history"
+	}
+	bad := [][]vC16LinOp{
+		{{kind: 1, val: 7, call: 1, ret: 2}, {kind: 1, val: 8, call: 3, ret: 4}, {kind: 0, res: 7, call: 5, ret: 6}},
+		{{kind: 1, val: 7, call: 1, ret: 2}, {kind: 1, val: 8, call: 3, ret: 4}, {kind: 3, old: 7, val: 9, ok: true, call: 5, ret: 6}},
+		{{kind: 1, val: 7, call: 1, ret: 2}, {kind: 2, call: 3, ret: 4}, {kind: 0, res: 7, call: 5, ret: 6}},
+		{{kind: 1, val: 7, call: 1, ret: 2}, {kind: 3, old: 7, val: 8, ok: true, call: 3, ret: 6}, {kind: 3, old: 7, val: 9, ok: true, call: 4, ret: 5}},
+	}
+	for i, h := range bad {
+		if vC16Linearizable(h) {
+			return fmt.Sprintf("checker accepts the non-linearizable history #%d", i)
+		}
+	}
+	return ""
+}
+
+func vC16Linearize(seed int64, rounds, workers int) map[string]any {
+	goFail := vC16LinSelfTest()
+	const perKey = 64
+	totalOps, overlapped := 0, 0
+	for round := 0; round < rounds && goFail == ""; round++ {
+		c := New(4096)
+		m := c.data.data
+		// three keys: zero, and two that share a segment (one lock, one slot table)
+		k1 := vC16KeyInSeg(m, uint(round)%uint(len(m.segments)), uint64(1+round*13))
+		keys := []uint64{0, k1, vC16KeyInSeg(m, uint(round)%uint(len(m.segments)), k1+1)}
+		budget := perKey / workers
+		hist := make([][]vC16LinOp, workers)
+		var clk, arrive atomic.Int64
+		var wg sync.WaitGroup
+		start := make(chan struct{})
+		for w := 0; w < workers; w++ {
+			wg.Add(1)
+			go func(w int) {
+				defer wg.Done()
+				r := rand.New(rand.NewSource(seed*7919 + int64(round)*131 + int64(w)))
+				left := make([]int, len(keys))
+				for i := range left {
+					left[i] = budget
+				}
+				lastSeen := make([]uint64, len(keys))
+				<-start
+				for n := 0; n < budget*len(keys); n++ {
+					if true {
+						// line the workers up again so that the next operations really overlap
+						arrive.Add(1)
+						for spin := 0; arrive.Load() < int64(workers*(n+1)) && spin < 1<<24; spin++ {
+							if spin&1023 == 1023 {
+								runtime.Gosched() // fewer processors than workers: let the others arrive
+							}
+						}
+					}
+					ki := r.Intn(len(keys))
+					if left[ki] == 0 {
+						continue
+					}
+					left[ki]--
+					k := keys[ki]
+					id := uint64(w+1)<<32 | uint64(n+1)
+					o := vC16LinOp{}
+					old := lastSeen[ki]
+					if old == 0 || r.Intn(5) == 0 {
+						old = uint64(r.Intn(workers)+1)<<32 | uint64(r.Intn(n+1)+1) // mostly a value that is not current
+					}
+					switch x := r.Intn(10); {
+					case x < 3:
+						o = vC16LinOp{kind: 0}
+						o.call = clk.Add(1)
+						v, ok := c.Get(k)
+						o.ret = clk.Add(1)
+						if ok {
+							o.res = v.(uint64)
+							lastSeen[ki] = o.res
+						}
+					case x < 5:
+						o = vC16LinOp{kind: 1, val: id}
+						o.call = clk.Add(1)
+						c.Add(k, id)
+						o.ret = clk.Add(1)
+						lastSeen[ki] = id
+					case x < 6:
+						o = vC16LinOp{kind: 2}
+						o.call = clk.Add(1)
+						c.Remove(k)
+						o.ret = clk.Add(1)
+					case x < 9:
+						o = vC16LinOp{kind: 3, old: old, val: id}
+						o.call = clk.Add(1)
+						o.ok = c.CompareAndSwap(k, old, id)
+						o.ret = clk.Add(1)
+						if o.ok {
+							lastSeen[ki] = id
+						}
+					default:
+						o = vC16LinOp{kind: 4, old: old}
+						o.call = clk.Add(1)
+						o.ok = c.CompareAndDelete(k, old)
+						o.ret = clk.Add(1)
+					}
+					hist[w] = append(hist[w], vC16LinOpKeyed(o, ki))
+					if r.Intn(3) == 0 {
+						runtime.Gosched()
+					}
+				}
+			}(w)
+		}
+		close(start)
+		if !vC16WaitOrHang(&wg) {
+			goFail = "deadlock: linearizability workers did not finish"
+			break
+		}
+		for ki, k := range keys {
+			var ops []vC16LinOp
+			for w := range hist {
+				for _, o := range hist[w] {
+					if int(o.old>>60) == ki {
+						o.old &= 1<<60 - 1
+						ops = append(ops, o)
+					}
+				}
+			}
+			sort.Slice(ops, func(a, b int) bool { return ops[a].call < ops[b].call })
+			// the final value is one more read after everything returned
+			fin := vC16LinOp{kind: 0, call: clk.Add(1)}
+			if v, ok := c.Get(k); ok {
+				fin.res = v.(uint64)
+			}
+			fin.ret = clk.Add(1)
+			if len(ops) < 64 {
+				ops = append(ops, fin)
+			}
+			totalOps += len(ops)
+			for i := 1; i < len(ops); i++ {
+				if ops[i].call < ops[i-1].ret {
+					overlapped++
+				}
+			}
+			if !vC16Linearizable(ops) {
+				var hs []string
+				for _, o := range ops {
+					hs = append(hs, o.String())
+				}
+				h := strings.Join(hs, " ")
+				if len(h) > 1800 {
+					h = h[:1800] + " ..."
+				}
+				goFail = fmt.Sprintf("history of key %d (round %d, %d workers) has no linearization as a map entry: %s", k, round, workers, h)
+				break
+			}
+		}
+		if c.Len() > len(keys) && goFail == "" {
+			goFail = fmt.Sprintf("Len()=%d with %d keys in use", c.Len(), len(keys))
+		}
+	}
+	return map[string]any{"k": "go-linearize", "go_fail": goFail, "nontrivial": overlapped > 0,
+		"desc": map[string]any{"rounds": rounds, "workers": workers, "ops_checked": totalOps, "overlapping_pairs": overlapped}}
+}
+
+// the key index travels in the top bits of .old while the histories are per worker
+func vC16LinOpKeyed(o vC16LinOp, ki int) vC16LinOp {
+	o.old = o.old&(1<<60-1) | uint64(ki)<<60
+	return o
+}
+
 func TestVerifC16Seg(t *testing.T) {
 	tr := vC16Open(t)
 	defer tr.f.Close()
@@ -1551,6 +1835,14 @@ func TestVerifC16Seg(t *testing.T) {
 			tr.emit(vC16SegHistory(r, powers[r.Intn(len(powers))], initcaps[r.Intn(len(initcaps))], 30+r.Intn(60)))
 		}
 	}
+	// short histories at the smallest capacities: the toll and the spill loop run on almost every Add
+	for c := 0; c < 2*n; c++ {
+		if c%2 == 0 {
+			tr.emit(vC16CacheHistory(r, []int{1, 1, 2, 3, 5}[r.Intn(5)], 8+r.Intn(12)))
+		} else {
+			tr.emit(vC16SegHistory(r, 4, 0, 8+r.Intn(12)))
+		}
+	}
 	tr.emit(vC16LockNesting())
 	rounds, ops := 4, 4000
 	if os.Getenv("VERIF_TIER") == "thorough" {
@@ -1567,6 +1859,12 @@ func TestVerifC16Seg(t *testing.T) {
 	for i := 0; i < casRounds; i++ {
 		tr.emit(vC16CasStress(seed+int64(i), 8, casIters))
 	}
+	linRounds := 60
+	if os.Getenv("VERIF_TIER") == "thorough" {
+		linRounds = 600
+	}
+	tr.emit(vC16Linearize(seed, linRounds, 4))
+	tr.emit(vC16Linearize(seed+1, linRounds/2, 8))
 	tr.emit(vC16RaceSparse())
 	tr.emit(vC16RaceClear())
 }
@@ -1586,4 +1884,7 @@ func TestVerifC16Race(t *testing.T) {
 	for i := 0; i < 2; i++ {
 		tr.emit(vC16CasStress(seed+int64(200+i), 8, 40000))
 	}
+	// linearizability of Get/Add/Remove/CompareAndSwap/CompareAndDelete, race detector on
+	tr.emit(vC16Linearize(seed+300, 50*n, 4))
+	tr.emit(vC16Linearize(seed+301, 25*n, 8))
 }
